@@ -80,9 +80,20 @@ def install():
         self._vf_bio = biomolecule
         return orig_assign(self, biomolecule)
 
+    # a cell map may also be filled atom by atom without assign_cells(): the reference population is then the
+    # biomolecule of the run in progress (the last one constructed)
+    from pdb2pqr import biomolecule as bmod
+    orig_binit = bmod.Biomolecule.__init__
+
+    def binit(self, *a, **k):
+        STATE["current_bio"] = self
+        return orig_binit(self, *a, **k)
+
+    bmod.Biomolecule.__init__ = binit
+
     def get_near_cells(self, atom):
         result = orig_near(self, atom)
-        bio = getattr(self, "_vf_bio", None)
+        bio = getattr(self, "_vf_bio", None) or STATE.get("current_bio")
         if bio is None:
             return result
         STATE["queries"] += 1
